@@ -876,6 +876,10 @@ func (ex *Exec) instr(fr *Frame, st *State, in ssa.Instruction) {
 		ref := ex.newRef(st, "new."+in.Comment)
 		fr.vals[in] = Val{T: in.Type(), L: []string{ref}}
 		ex.storeObj(st, T, ref, zeroVal(T))
+		if writeOnceCaptured(in) {
+			// a variable that closures only read: no callee can change it
+			ex.stableCells = append(ex.stableCells, ref)
+		}
 	case *ssa.Store:
 		v := ex.value(fr, st, in.Val)
 		t := ex.resolve(fr, st, in.Addr)
@@ -1636,4 +1640,56 @@ func (ex *Exec) overflowCheck(fr *Frame, st *State, in *ssa.BinOp, a, b string, 
 	wide := app(op, ext(a), ext(b))
 	narrow := ext(app(op, a, b))
 	ex.oblige(fr, st, "overflow", "", eq(wide, narrow), in.Pos(), fmt.Sprintf("%d-bit arithmetic wraps around: %s", w, ex.srcLine(in.Pos())))
+}
+
+
+// writeOnceCaptured reports a local variable cell that is assigned exactly once (its initialisation) and is
+// otherwise only read, by the function or by the function literals that capture it; its address is never
+// passed on. Such a cell keeps its value across calls.
+func writeOnceCaptured(a *ssa.Alloc) bool {
+	if !a.Heap || a.Referrers() == nil {
+		return false
+	}
+	stores := 0
+	for _, r := range *a.Referrers() {
+		switch r := r.(type) {
+		case *ssa.Store:
+			if r.Addr != ssa.Value(a) || r.Val == ssa.Value(a) {
+				return false
+			}
+			stores++
+		case *ssa.UnOp:
+			if r.Op != token.MUL {
+				return false
+			}
+		case *ssa.DebugRef:
+		case *ssa.MakeClosure:
+			fn, ok := r.Fn.(*ssa.Function)
+			if !ok {
+				return false
+			}
+			for i, b := range r.Bindings {
+				if b != ssa.Value(a) {
+					continue
+				}
+				if i >= len(fn.FreeVars) || fn.FreeVars[i].Referrers() == nil {
+					return false
+				}
+				for _, fr := range *fn.FreeVars[i].Referrers() {
+					switch u := fr.(type) {
+					case *ssa.UnOp:
+						if u.Op != token.MUL {
+							return false
+						}
+					case *ssa.DebugRef:
+					default:
+						return false
+					}
+				}
+			}
+		default:
+			return false
+		}
+	}
+	return stores == 1
 }
